@@ -56,7 +56,7 @@ FindSub(s, i, p) ==
   IF i + Len(p) - 1 > Len(s) THEN 0
   ELSE IF HasPrefixAt(s, i, p) THEN i ELSE FindSub(s, i + 1, p)
 
-Contains(s, b) == \E k \in 1..Len(s) : s[k] = b
+HasByte(s, b) == \E k \in 1..Len(s) : s[k] = b
 
 \* byte-wise lexicographic order (what Rust's str::cmp is)
 RECURSIVE LexCmpFrom(_, _, _)
